@@ -139,6 +139,10 @@ def run_cons(case, viol, obs):
     kw = kw_for(cls, base, k=max(1, len(base["planted"])) + (1 if crossing else rng.choice([0, 1])))
     if "optimization_options" in kw and rng.random() < 0.5:
         del kw["optimization_options"]          # library defaults (greedy pre-check on)
+    if cyc and not node and rng.random() < 0.35:
+        # a SUBSET constraint is a set of edges: an edge that is listed more than once (the edge list of a walk going round a cycle twice) counts once
+        cons = [list(c) + [rng.choice(list(c)) for _ in range(rng.randint(1, 2))] for c in cons]
+        obs["c10.subset_constraints_with_repeated_entries"] += 1
     kw[ckey] = gen.jl(cons)
     cov = rng.choice([1.0, 1.0, 0.75, 0.5, 0.34])
     covlen = None; lengths = {}
